@@ -1,14 +1,15 @@
 #!/bin/sh
 # usage: tools_matrix.sh [out-file]   -- runs every seeded change against the quick check of its own property in a scratch
 # worktree of /repo HEAD (EINX_REPO), so that /repo itself is never touched. Prints "<mutant> <property> caught|MISSED".
+HERE="$(cd "$(dirname "$0")" && pwd)"
 out="${1:-/tmp/mut/matrix.txt}"
 : > "$out"
-for d in "$(dirname "$0")"/seeded/*/; do
+for d in "$HERE"/seeded/*/; do
   n=$(basename "$d"); p=${n%%_*}
   wt=/tmp/mut/mx_$$_$n
   git -C /repo worktree add --detach "$wt" >/dev/null 2>&1 || continue
   if git -C "$wt" apply "$d/patch.diff" 2>/dev/null; then
-    res=$(EINX_REPO="$wt" VERIF_SEED=${VERIF_SEED:-1} "$(dirname "$0")"/check "$p" --tier quick 2>&1)
+    res=$(EINX_REPO="$wt" VERIF_SEED=${VERIF_SEED:-1} "$HERE"/check "$p" --tier quick 2>&1)
     rc=$?
     if [ $rc = 1 ]; then verdict=caught; elif [ $rc = 0 ]; then verdict=MISSED; else verdict="ERROR($rc)"; fi
     bucket=$(echo "$res" | grep -m1 "^violation" | cut -c1-160)
